@@ -603,6 +603,7 @@ def corr_buildsystem(ctx, res):
 
 C19_DEPS_THEOREMS = [
     "LLBuild.MakeDeps.C19_makedeps_no_oob", "LLBuild.MakeDeps.C19_makedeps_terminates", "LLBuild.MakeDeps.C19_lexWord_no_oob",
+    "LLBuild.MakeDeps.C19_makedeps_slices_in_bounds",
     "LLBuild.DepInfo.C19_depinfo_no_oob", "LLBuild.DepInfo.C19_depinfo_terminates",
 ]
 
@@ -612,6 +613,7 @@ class Check(PropertyCheck):
     module = "LLBuild.Props.C11"
     theorems = [
         "LLBuild.MakeDeps.C11_roundtrip_word", "LLBuild.MakeDeps.C11_roundtrip_target",
+        "LLBuild.MakeDeps.C11_roundtrip_file", "LLBuild.MakeDeps.C11_roundtrip_file_ignoring", "LLBuild.MakeDeps.C11_roundtrip_file_discovered",
         "LLBuild.MakeDeps.C11_inexpressible_newline", "LLBuild.MakeDeps.C11_inexpressible_control",
         "LLBuild.MakeDeps.C11_comment_skipped", "LLBuild.MakeDeps.C11_relative_resolved", "LLBuild.MakeDeps.C11_absolute_unchanged",
         "LLBuild.DepInfo.C11_depinfo_roundtrip", "LLBuild.ShellDeps.C11_malformed_fails", "LLBuild.ShellDeps.C11_wellformed_succeeds",
